@@ -42,6 +42,31 @@ def run (op : String) (args : List String) (impl : List String) : Outcome :=
       (if sub && sl.input != [] && trunc then ["capped"] else []) ++
       (if moved && edited && sub && sl.input != [] && es != [] then ["nt"] else [])
     { model, spec, tags }
+  | "psess", [file, max, navs, submit] =>
+    -- the same session through the real terminal: prev-history / next-history / query changes posted
+    -- to fzf under tmux; observed: the query after every step and the history file after exit
+    let data := if file == "!" then [] else parseNatList file
+    let m := max.toNat!
+    let ns := parseNavs navs
+    let sub := submit == "1"
+    let (final, obs) := ns.foldl (fun (acc : _ × List String) n =>
+      let s' := navStep acc.1 n
+      (s', acc.2 ++ [showNatList s'.input])) (({ h := load data m, input := [] } : Sess), [])
+    let _ := final
+    let out := session data m ns sub
+    let model := s!"{showNatList out} {if obs.isEmpty then "_" else "/".intercalate obs}"
+    let es := entries data
+    let sl := (ns.map toSlotOp).foldl Slots.step { slots := es ++ [[]], cursor := es.length, input := [] }
+    let expFile := if sub && sl.input != [] then render (lastN m (es ++ [sl.input])) else data
+    let spec := match impl with
+      | [f, o] =>
+        let lastObs := ((o.splitOn "/").getLast?).getD "_"
+        if !ns.isEmpty ∧ parseNatList lastObs != sl.input then
+          specFail s!"[C18] the query line is {lastObs} but the history slots hold {showNatList sl.input}"
+        else if parseNatList f != expFile then specFail s!"[C18] file {f} but last-{m} of entries++submitted is {showNatList expFile}"
+        else specOk
+      | _ => specFail s!"implementation answered {impl}"
+    { model, spec, tags := ["psess"] ++ (if ns.length ≥ 3 ∧ es != [] then ["nt"] else []) }
   | _, _ => { model := "bad-op" }
 
 end Driver.History
